@@ -272,7 +272,13 @@ def gen_config(rng: random.Random, rules: list[dict], depth: int = 0, density: f
                 row += " " + " ".join(rng.sample(VAL, rng.randint(1, 2)))
             if row in t:
                 continue
-            t[row] = gen_config(rng, r["kids"], depth + 1, density, dup_rate) if r["kids"] and rng.random() < 0.8 else {}
+            # the children rules of EVERY local rule matching a block header apply below it (_select_match merges
+            # them): rows for the other matching siblings' children too, not only for the rule the row came from
+            kids_src = list(r["kids"])
+            for o in rules:
+                if o is not r and o["kids"] and not o["ign"] and not o["glob"] and _fits(o["pat"], row):
+                    kids_src += [k for k in o["kids"] if all(k["pat"] != x["pat"] for x in kids_src)]
+            t[row] = gen_config(rng, kids_src, depth + 1, density, dup_rate) if kids_src and rng.random() < 0.8 else {}
             if rng.random() < dup_rate and not r["pat"].endswith("~"):
                 t[base + " dup"] = {}
     if rng.random() < 0.15:
@@ -280,6 +286,16 @@ def gen_config(rng: random.Random, rules: list[dict], depth: int = 0, density: f
     items = list(t.items())
     rng.shuffle(items)
     return dict(items)
+
+
+def _fits(pat: str, row: str) -> bool:
+    """crude word-level fit of a plain pattern (literal words, *, */re/, trailing ~); used only to steer generation"""
+    ws, ps = row.split(), pat.split()
+    tilde = bool(ps) and ps[-1] == "~"
+    core = ps[:-1] if tilde else ps
+    if len(ws) < len(core) + (1 if tilde else 0):
+        return False
+    return all(p == w or p.startswith("*") for p, w in zip(core, ws))
 
 
 def rule_for(row: str, rules: list[dict]):
